@@ -156,11 +156,15 @@ def cadence_cfgs(item):
                'long_only': True, 'buffer': 0.05, 'fee': ['zero'], 'cash': 10007.31, 'signals': {'lookbacks': [12, 2]}}
         if label == 'static':
             cfg['universe'] = {'kind': 'static'}
+            yield label, entry, days, cfg
         else:
-            cfg['universe'] = {'kind': 'dynamic', 'entries': {
-                'EQ:AAA': (start - datetime.timedelta(days=5)).isoformat(),
-                'EQ:BBB': None if entry is None else entry.isoformat()}}
-        yield label, entry, days, cfg
+            early = (start - datetime.timedelta(days=5)).isoformat()
+            late = None if entry is None else entry.isoformat()
+            cfg['universe'] = {'kind': 'dynamic', 'entries': {'EQ:AAA': early, 'EQ:BBB': late}}
+            yield label, entry, days, cfg
+            # the same universe with the late entrant LISTED FIRST in the mapping
+            cfg2 = dict(cfg, universe={'kind': 'dynamic', 'entries': {'EQ:BBB': late, 'EQ:AAA': early}})
+            yield label + '_listed_first', entry, days, cfg2
 
 
 def check_cadence(label, entry, days, cfg, market, handler):
@@ -219,7 +223,7 @@ def per_cadence(item):
         for label, entry, days, cfg in cadence_cfgs(item):
             fails = check_cadence(label, entry, days, cfg, market, handler)
             n += 1
-            labels.add(label.split('_', 1)[-1] if label.startswith('day') else label)
+            labels.add((label.split('_', 1)[-1] if label.startswith('day') else label).replace('_listed_first', ''))
             for f in fails:
                 f['case'] = {'part': 'cadence', 'label': label, 'entry': None if entry is None else entry.isoformat(),
                              'days': [x.isoformat() for x in days], 'cfg': cfg}
